@@ -1854,12 +1854,7 @@ fn verify_nsec(
 
     // An empty non-terminal owns no NSEC record. It is proven to exist, without any records, by the
     // NSEC record that spans the query name and has a next domain name below it. (RFC 4592 2.2.2)
-    if nsecs.iter().any(|(name, nsec_data)| {
-        let next_domain_name = nsec_data.next_domain_name();
-        *name < &query.name
-            && &query.name < next_domain_name
-            && query.name.zone_of(next_domain_name)
-    }) {
+    if is_empty_non_terminal(&query.name, nsecs) {
         return if response_code == ResponseCode::NoError && !have_answer {
             nsec1_yield(Proof::Secure, "empty non-terminal")
         } else {
@@ -1984,6 +1979,17 @@ fn verify_nsec(
         {
             nsec1_yield(Proof::Secure, "no direct match, covering wildcard present")
         }
+        // A wildcard that is an empty non-terminal exists as well, but it owns no NSEC record and no
+        // records of any other type: no data, whatever the query type. (RFC 4592 4.9)
+        None if !have_answer
+            && response_code == ResponseCode::NoError
+            && is_empty_non_terminal(&wildcard_name, nsecs) =>
+        {
+            nsec1_yield(
+                Proof::Secure,
+                "no direct match, wildcard is an empty non-terminal",
+            )
+        }
         _ => nsec1_yield(
             Proof::Bogus,
             "no NSEC record matches or covers the wildcard name",
@@ -2042,6 +2048,17 @@ fn no_closer_matches(
     }
 
     true
+}
+
+/// Returns true if an NSEC record proves that `test_name` is an empty non-terminal: the record spans
+/// the test name and has a next domain name below it. (RFC 4592 2.2.2)
+fn is_empty_non_terminal(test_name: &Name, nsecs: &[(&Name, &NSEC)]) -> bool {
+    nsecs.iter().any(|(nsec_name, nsec_data)| {
+        let next_domain_name = nsec_data.next_domain_name();
+        *nsec_name < test_name
+            && test_name < next_domain_name
+            && test_name.zone_of(next_domain_name)
+    })
 }
 
 /// Find the NSEC record proving that `test_name` does not exist, if any.
@@ -2857,6 +2874,60 @@ mod test {
             verify_nsec(
                 &Query::new(Name::from_ascii("a.ent.example.")?, MX),
                 Some(&Name::from_ascii("example.")?),
+                ResponseCode::NoError,
+                &[],
+                &[(&nsec_name, &nsec)],
+            ),
+            Proof::Bogus
+        );
+
+        Ok(())
+    }
+
+    // The wildcard at the closest encloser is an empty non-terminal: no data for any type
+    #[test]
+    fn nsec_wildcard_no_data_error_empty_non_terminal() -> Result<(), ProtoError> {
+        subscribe();
+
+        let soa_name = Name::from_ascii("example.")?;
+        // This NSEC proves that *.w.example. is an empty non-terminal.
+        let wildcard_nsec = rdataNSEC::new(
+            Name::from_ascii("a.*.w.example.")?,
+            [DNSKEY, NS, NSEC, RRSIG, SOA],
+        );
+        // This NSEC proves that the query name does not exist, w.example. is its closest encloser.
+        let nsec_name = Name::from_ascii("a.*.w.example.")?;
+        let nsec = rdataNSEC::new(Name::from_ascii("example.")?, [A, NSEC, RRSIG]);
+        let query = Query::new(Name::from_ascii("b.w.example.")?, MX);
+
+        assert_eq!(
+            verify_nsec(
+                &query,
+                Some(&soa_name),
+                ResponseCode::NoError,
+                &[],
+                &[(&soa_name, &wildcard_nsec), (&nsec_name, &nsec)],
+            ),
+            Proof::Secure
+        );
+
+        // The wildcard exists, this is not a name error.
+        assert_eq!(
+            verify_nsec(
+                &query,
+                Some(&soa_name),
+                ResponseCode::NXDomain,
+                &[],
+                &[(&soa_name, &wildcard_nsec), (&nsec_name, &nsec)],
+            ),
+            Proof::Bogus
+        );
+
+        // Nothing is known about the wildcard.
+        assert_eq!(
+            verify_nsec(
+                &query,
+                Some(&soa_name),
                 ResponseCode::NoError,
                 &[],
                 &[(&nsec_name, &nsec)],
